@@ -25,8 +25,13 @@ RULE = ("construction: every string of length <= 2 (quick) / <= 4 (thorough) ove
         "the live BaseVersion.re_valid_version.  non-trivial = a construction from a non-empty string, or a sequence "
         "with at least one assignment")
 TRUSTED = ["model coq/Version/Parse.v is a hand transcription of BaseVersion.__init__/_set_full_version/__setattr__/"
-           "_update_full_version/__str__ with a hand-written leaf for re_valid_version (lazy upstream, optional "
-           "revision group, optional epoch group with fall-back); tied to the code only by this correspondence",
+           "_update_full_version/__getattr__/__str__; since the tie by regeneration (coq/Props/C14Tie.v) each of these is "
+           "PROVED equal to the method regenerated from the source (coq/Gen/TrVersionParse.v) on all states and values; "
+           "still tied by this correspondence only: the hand-written leaf for re_valid_version (lazy upstream, optional "
+           "revision group, optional epoch group with fall-back), str() of None/str/int, and the slot primitives of "
+           "coq/Version/ParseTrPrims.v (getattr/setattr with a computed private name, super().__setattr__/__getattribute__)",
+           "for the tie: harness/py2coq.py's rendering of each construct (incl. try/except, attribute hooks, the "
+           "recursion group __setattr__/_update_full_version) and the types given in TR_MODULE; coq/Lib/Tr.v",
            "character classes, end anchor and magic_attrs are regenerated from the source into coq/Gen/VersionConsts.v; "
            "the skeleton of the pattern is checked by harness/props/version_common.py, not translated"]
 ASSUMPTIONS = ["apt_pkg is absent: Version = NativeVersion (BaseVersion behaviour is the same either way)",
@@ -384,3 +389,114 @@ def describe(case, obs):
                 "specified": "each assignment: the recomposed version is valid -> the object is exactly that version; "
                              "otherwise ValueError and the object exactly as before"}
     return {"leaf": "BaseVersion.re_valid_version.match", "s": case["s"], "observed": obs}
+
+
+# ---------------------------------------------------------------------------------------------------
+# TIE BY REGENERATION (DESIGN §3.1b): the methods of BaseVersion that the model transcribes are regenerated from
+# lib/debian/debian_support.py into coq/Gen/TrVersionParse.v on every run (harness/py2coq.py); coq/Version/ParseTie.v
+# proves each equal to the model function of coq/Version/Parse.v on ALL states and values; statements in
+# coq/Props/C14Tie.v.
+#
+# How the object is rendered
+# * _set_full_version, __setattr__, _update_full_version, __init__: METHOD MODE.  The state is the four private
+#   attributes (self.__full_version, __epoch, __upstream_version, __debian_revision); the result is
+#   `mres unit state` (state returned on an exception too).
+# * `self.full_version = e` (in _update_full_version and __init__) is NOT a store: the class serves that name
+#   through __setattr__.  Module.attr_hooks renders it as the statement `self.__setattr__("full_version", e)`, a call
+#   of the TRANSLATED __setattr__ on the current state.  __setattr__ in turn calls self._update_full_version():
+#   the two form a recursion group (Fun.rec_group) = one mutual Fixpoint on explicit fuel; the tie shows fuel 3 (2)
+#   is enough (the "full_version" branch of __setattr__ does not come back).
+# * `self.full_version` read (in __str__) is served by __getattr__: rendered as `self.__getattr__("full_version")`,
+#   a call of the translated __getattr__.
+# * __getattr__ and __str__ only read the object: they are translated as plain functions of the four attribute
+#   values (ghost parameters with the names of the state variables; a store in them would fail the translation
+#   closed) returning `result`.  The renderings of getattr / __getattr__ / super().__getattribute__ name these
+#   four variables in their Coq text: in method mode they are the state variables (always bound to the current
+#   state), in __getattr__/__str__ the ghost parameters.
+# * try/except in __setattr__: translated (py2coq._try): the handler runs on the state that `MErr e st` carries.
+# * getattr(self, private) / setattr(self, private, v) with the computed name "_BaseVersion__%s" % attr and
+#   super().__setattr__/__getattribute__: primitives over the state variables keyed by the name string
+#   (coq/Version/ParseTrPrims.v, from the model's put_private/getattr).  (In Python setattr(self, private, v) itself goes
+#   through BaseVersion.__setattr__, whose first branch hands a non-magic name to object.__setattr__; the primitive is
+#   that store.  Likewise `self.__epoch = …` in _set_full_version is a plain state write of method mode.)
+# * values are dynamic: None / str / int = `option nnval`; `str` injects by NStr (Module.coercions).
+from harness import extract, py2coq as _P   # noqa: E402
+
+_NN = ("coq", "nnval")
+_ONN = ("option", _NN)
+_VM = ("coq", "vmatch")
+_OSTR = ("option", "str")
+_ST = [("self.__full_version", "s_full", "str"), ("self.__epoch", "s_ep", _OSTR),
+       ("self.__upstream_version", "s_up", _OSTR), ("self.__debian_revision", "s_rev", _OSTR)]
+_STG = [(v, t) for _, v, t in _ST]          # the same four values as ghost parameters (read-only methods)
+_STV = " ".join(v for _, v, _ in _ST)
+_SELF = ("literal", "self", "tt")
+
+
+def _m(coq, name, params, ret, **kw):
+    return _P.Fun(coq, "BaseVersion." + name, params, ret, skip_first=True, state=_ST, **kw)
+
+
+def _selfm(coq, name, args, ret):
+    c = _P.Call(coq, args, ret)
+    c.selfmethod = "BaseVersion." + name
+    return c
+
+
+def _stprim(coq, args, ret):
+    c = _P.Call(coq, args, ret)
+    c.stateprim = True
+    return c
+
+
+_f_set_full = _m("tr_set_full_version", "_set_full_version", [("version", "str")], "unit",
+                 locals={"m": ("option", _VM)})
+_f_set_full.narrow = True       # `if not m: raise`: m is the match object below
+_f_setattr = _m("tr_setattr", "__setattr__", [("attr", "str"), ("value", _ONN)], "unit",
+                locals={"private": "str", "old_value": _ONN})
+_f_update = _m("tr_update_full_version", "_update_full_version", [], "unit", locals={"version": "str"})
+for _f, _fuel in ((_f_setattr, "3"), (_f_update, "2")):
+    _f.rec_group, _f.rec_fuel = "setattr", _fuel
+
+TR_MODULE = _P.Module(
+    "TrVersionParse", vc.SRC,
+    funs=[
+        _f_set_full,
+        _f_setattr,
+        _f_update,
+        _m("tr_init", "__init__", [("version", _ONN)], "unit"),
+        _P.Fun("tr_getattr", "BaseVersion.__getattr__", [("attr", "str")], _ONN, locals={"private": "str"},
+               skip_first=True, ghost=_STG),
+        _P.Fun("tr_str", "BaseVersion.__str__", [], _ONN, skip_first=True, ghost=_STG),
+    ],
+    calls={
+        "self.re_valid_version.match": _P.Call("trp_match_version", ["str"], ("option", _VM)),
+        "<vmatch>.group": [
+            _P.Call("trp_group_epoch", [_VM, ("literal", "'epoch'", "tt")], _OSTR),
+            _P.Call("trp_group_upstream", [_VM, ("literal", "'upstream_version'", "tt")], "str"),
+            _P.Call("trp_group_revision", [_VM, ("literal", "'debian_revision'", "tt")], _OSTR)],
+        "str": _P.Call("trp_str_opt", [_ONN], "str"),
+        "isinstance": _P.Call("trp_isinstance_BaseVersion", [_ONN, ("literal", "BaseVersion", "tt")], "bool"),
+        "getattr": _P.Call("trp_getattr " + _STV, [_SELF, "str"], _ONN, True),
+        "setattr": _stprim("trp_setattr", [_SELF, "str", _ONN], "unit"),
+        "super(BaseVersion, self).__setattr__": _stprim("trp_super_setattr", ["str", _ONN], "unit"),
+        "super(BaseVersion, self).__getattribute__": _P.Call("trp_super_getattribute " + _STV, ["str"], _ONN, True),
+        "self._set_full_version": _selfm("tr_set_full_version", "_set_full_version", ["str"], "unit"),
+        "self._update_full_version": _selfm("tr_update_full_version", "_update_full_version", [], "unit"),
+        "self.__setattr__": _selfm("tr_setattr", "__setattr__", ["str", _ONN], "unit"),
+        "self.__getattr__": _P.Call("tr_getattr " + _STV, ["str"], _ONN, True),
+    },
+    consts={"self.magic_attrs": ("trp_magic_attrs", ("list", "str"))},
+    imports=["Version.Parse", "Version.ParseTrPrims"],
+    regexes=[("BaseVersion.re_valid_version",
+              r"^((?P<epoch>[0-9]+):)?(?P<upstream_version>[A-Za-z0-9.+:~-]+?)(-(?P<debian_revision>[A-Za-z0-9+.~]+))?\Z")])
+TR_MODULE.attr_hooks = {"self.full_version": ("self.__getattr__", "self.__setattr__")}
+TR_MODULE.coercions = [("str", _NN, "(NStr %s)")]
+
+
+@extract.register("TrVersionParse")
+def _gen_tr(repo):
+    return _P.translate_module(repo, TR_MODULE)
+
+
+TIE_FILE = "Props/C14Tie.v"
